@@ -27,7 +27,8 @@ type faultSlot struct {
 
 type faultPlan struct {
 	slots      []faultSlot
-	persistent int // 0 none, 1 read-only file system, 2 permission denied on everything, 3 every mmap fails
+	persistent int // 0 none, 1 read-only file system, 2 permission denied on everything, 3 every mmap fails, 4 no hard links, 5 disk full from call `from` on, 6 read-only from call `from` on, 7 mmap fails from call `from` on
+	from       int
 }
 
 const planSlots = 6 // choices consumed by drawPlan
@@ -40,7 +41,8 @@ func drawPlan(t *simrt.Tape) faultPlan {
 	n := t.Fixed(3, 0)
 	a := faultSlot{t.Fixed(1<<12, 0), t.Fixed(numFaultKinds, 0)}
 	b := faultSlot{t.Fixed(1<<12, 0), t.Fixed(numFaultKinds, 0)}
-	p.persistent = t.Fixed(4, 0)
+	p.persistent = t.Fixed(8, 0)
+	p.from = a.idx
 	if n >= 1 {
 		p.slots = append(p.slots, a)
 	}
@@ -63,6 +65,22 @@ func (p faultPlan) install(s *simrt.Sim) {
 			}
 		case 3:
 			if c.Op == "mmap" {
+				return syscall.ENOMEM
+			}
+		case 4:
+			if c.Op == "link" {
+				return syscall.EPERM // a file system without hard links
+			}
+		case 5:
+			if c.Idx >= p.from && c.Mutating && c.Op != "remove" {
+				return syscall.ENOSPC
+			}
+		case 6:
+			if c.Idx >= p.from && (c.Mutating || c.Op == "open-create" || c.Op == "create-excl" || c.Op == "createtemp") {
+				return syscall.EROFS
+			}
+		case 7:
+			if c.Idx >= p.from && c.Op == "mmap" {
 				return syscall.ENOMEM
 			}
 		}
@@ -94,6 +112,9 @@ func (p faultPlan) String() string {
 	}
 	if p.persistent != 0 {
 		fmt.Fprintf(&sb, "persistent=%d", p.persistent)
+		if p.persistent >= 5 {
+			fmt.Fprintf(&sb, " from call#%d", p.from)
+		}
 	}
 	return strings.TrimSpace(sb.String())
 }
@@ -117,13 +138,24 @@ func c05Exec(c *hlib.RunCtx, t *simrt.Tape) (*hlib.Violation, int) {
 	w.strict = false
 	plan.install(s)
 
-	dirState := t.Biased(5, 3, 4) // 0 normal, 1 local is a regular file, 2 telemetry dir is a regular file, 3 stale garbage counter file, 4 weekends deleted mid-run
+	dirState := t.Biased(5, 3, 4) // 0 normal, 1 local is a regular file, 2 telemetry dir is a regular file, 3 odd week-end file, 4 weekends deleted mid-run
 	switch dirState {
 	case 1:
 		os.MkdirAll(w.tele, 0777)
 		os.WriteFile(w.local, []byte("not a directory"), 0666)
 	case 2:
 		os.WriteFile(w.tele, []byte("not a directory"), 0666)
+	case 3:
+		// the week-end file as found: empty, white space, garbage, a directory
+		os.MkdirAll(w.local, 0777)
+		wkp := filepath.Join(w.local, "weekends")
+		switch k := t.Draw(8); k {
+		case 7:
+			os.MkdirAll(wkp, 0777)
+		default:
+			os.WriteFile(wkp, []byte([]string{"", "\n", "  \n", "x\n", "9\n", "-1\n", "\xff\n"}[k]), 0666)
+		}
+		s.Probe("odd-weekends-file")
 	}
 	if dirState == 0 || dirState >= 3 {
 		// the mode file as found: absent, well-formed, cut short (a reader racing a
@@ -337,11 +369,25 @@ func scenarioC05(c *hlib.RunCtx) *hlib.Violation {
 		}
 	}
 	// persistent directory states
-	for p := 1; p <= 3; p++ {
+	for p := 1; p <= 4; p++ {
 		if v := try(0, faultSlot{}, faultSlot{}, p); v != nil {
 			return v
 		}
 		c.Note("persistent-faults")
+	}
+	// states that begin in mid-run: the disk fills up, turns read-only, or
+	// mapping starts to fail from some call on
+	stride := 4
+	if thorough {
+		stride = 1
+	}
+	for k := 1; k < ncalls; k += stride {
+		for p := 5; p <= 7; p++ {
+			if v := try(0, faultSlot{idx: k}, faultSlot{}, p); v != nil {
+				return v
+			}
+			c.Note("persistent-from-faults")
+		}
 	}
 	// pairs: all for small workloads in the thorough tier, a sample otherwise
 	r := simrt.NewRand(uint64(len(base))*7919 + uint64(ncalls))
